@@ -321,6 +321,11 @@ pub enum CaseOutcome {
 /// The per-case limit is a limit on work, not on wall-clock time: on a machine whose run queue is longer than its
 /// number of cores a case gets only a fraction of a core, so the allowed wall-clock time is stretched by the 1-minute
 /// load average per core (at most 8x).  Evaluated when the plain limit expires.
+/// message of the last panic caught on this thread (for run functions that tolerate a specific, announced panic)
+pub fn take_last_panic() -> Option<String> {
+    LAST_PANIC.with(|p| p.borrow_mut().take())
+}
+
 pub fn stretched_limit(timeout_s: u64) -> Duration {
     let ncpu = std::thread::available_parallelism().map(|n| n.get()).unwrap_or(1) as f64;
     let load = std::fs::read_to_string("/proc/loadavg").ok().and_then(|s| s.split_whitespace().next().and_then(|x| x.parse::<f64>().ok())).unwrap_or(0.0);
